@@ -48,6 +48,14 @@ def to_ast(shape):
 
 
 V = {"F1": z3.Real("f1"), "F2": z3.Real("f2"), "C1": z3.Real("c1"), "C2": z3.Real("c2")}
+# tasks marked "again" evaluate the SAME tree object first against another valuation of the fluents (these variables) and
+# then against V: what a grounded operator does with its conditions and effects from one state to the next
+VB = {"F1": z3.Real("f1b"), "F2": z3.Real("f2b")}
+
+
+def _earlier(defined):
+    """the definedness conditions of the earlier evaluation"""
+    return [z3.substitute(d, (V["F1"], VB["F1"]), (V["F2"], VB["F2"])) for d in defined]
 
 
 def oracle(shape, defined):
@@ -84,11 +92,12 @@ def build_tree(ast):
     return root
 
 
-def state_fluents():
+def state_fluents(src=None):
+    src = src or V
     fs = domain_functions()
     f, g = fs["f"], fs["g"]
-    f.set_value(SymReal(V["F1"]))
-    g.set_value(SymReal(V["F2"]))
+    f.set_value(SymReal(src["F1"]))
+    g.set_value(SymReal(src["F2"]))
     return {f.untyped_representation: f, g.untyped_representation: g}
 
 
@@ -109,6 +118,7 @@ def run_kernel(task):
     res = {"task": task, "outcome": "held", "paths": 0, "cex": None, "obligations": 0}
     stats = Stats()
     kind = task["kind"]
+    again = bool(task.get("again"))
     try:
         if kind == "calc":
             shape = task["shape"]
@@ -116,9 +126,12 @@ def run_kernel(task):
             exp = oracle(shape, defined)
 
             def fn(ctx):
-                if not ctx.assume(z3.And([z3.BoolVal(True)] + defined)):
+                if not ctx.assume(z3.And([z3.BoolVal(True)] + defined + (_earlier(defined) if again else []))):
                     return None
                 root = build_tree(to_ast(shape))
+                if again:
+                    set_expression_value(root, state_fluents(VB))
+                    calculate(root)
                 set_expression_value(root, state_fluents())
                 return calculate(root)
 
@@ -141,9 +154,12 @@ def run_kernel(task):
             exp = cmp_oracle(op, le, re_, epsz)
 
             def fn(ctx):
-                if not ctx.assume(z3.And([z3.BoolVal(True)] + defined)):
+                if not ctx.assume(z3.And([z3.BoolVal(True)] + defined + (_earlier(defined) if again else []))):
                     return None
                 root = build_tree([op, to_ast(ls), to_ast(rs)])
+                if again:
+                    set_expression_value(root, state_fluents(VB))
+                    bool(evaluate_expression(root))
                 set_expression_value(root, state_fluents())
                 return bool(evaluate_expression(root))
 
@@ -166,9 +182,12 @@ def run_kernel(task):
             exp = {"assign": r, "increase": old + r, "decrease": old - r}[op]
 
             def fn(ctx):
-                if not ctx.assume(z3.And([z3.BoolVal(True)] + defined)):
+                if not ctx.assume(z3.And([z3.BoolVal(True)] + defined + (_earlier(defined) if again else []))):
                     return None
                 root = build_tree([op, ["f", "?a"], to_ast(rs)])
+                if again:
+                    set_expression_value(root, state_fluents(VB))
+                    evaluate_expression(root)
                 fl = state_fluents()
                 set_expression_value(root, fl)
                 out = evaluate_expression(root)
@@ -267,7 +286,7 @@ def _cex(ctx, res, what, neg):
     for bound in (1000, 10 ** 7, None):
         cons = [neg]
         if bound:
-            for v in V.values():
+            for v in list(V.values()) + list(VB.values()):
                 cons += [v <= bound, v >= -bound]
         if ctx.check(*cons) == "sat":
             model = ctx.solver.model()
@@ -275,6 +294,8 @@ def _cex(ctx, res, what, neg):
     if model is None:
         return
     vals = {k: lib.to_float(core.zval(model, v)) for k, v in V.items()}
+    if res["task"].get("again"):
+        vals.update({k + "b": lib.to_float(core.zval(model, v)) for k, v in VB.items()})
     rp = replay_kernel(res["task"], vals)
     if not rp["disagree"]:
         # number printing lies outside the symbolic model: before a counterexample is counted as not reproducing it is
@@ -307,10 +328,10 @@ def _concrete_tree(ast, vals):
     return root
 
 
-def _concrete_fluents(vals):
+def _concrete_fluents(vals, earlier=False):
     fs = domain_functions()
-    fs["f"].set_value(vals["F1"])
-    fs["g"].set_value(vals["F2"])
+    fs["f"].set_value(vals["F1b" if earlier else "F1"])
+    fs["g"].set_value(vals["F2b" if earlier else "F2"])
     return {fs["f"].untyped_representation: fs["f"], fs["g"].untyped_representation: fs["g"]}
 
 
@@ -327,11 +348,15 @@ def replay_kernel(task, vals):
                                                               NumericalExpressionTree, construct_expression_tree)
     eps = lib.lib_eps()
     kind = task["kind"]
+    again = bool(task.get("again")) and "F1b" in vals
     out = {"disagree": False}
     try:
         if kind == "calc":
             exp = _exact(task["shape"], vals)
             root = _concrete_tree(to_ast(task["shape"]), vals)
+            if again:
+                set_expression_value(root, _concrete_fluents(vals, earlier=True))
+                calculate(root)
             set_expression_value(root, _concrete_fluents(vals))
             got = calculate(root)
             out.update(observed=got, expected=float(exp))
@@ -341,6 +366,9 @@ def replay_kernel(task, vals):
             close = abs(l - r) <= eps
             exp = {"=": close, "<=": close or l < r, ">=": close or l > r, "<": l < r, ">": l > r, "!=": not close}[task["op"]]
             root = _concrete_tree([task["op"], to_ast(task["lhs"]), to_ast(task["rhs"])], vals)
+            if again:
+                set_expression_value(root, _concrete_fluents(vals, earlier=True))
+                evaluate_expression(root)
             set_expression_value(root, _concrete_fluents(vals))
             got = bool(evaluate_expression(root))
             out.update(observed=got, expected=exp, lhs=float(l), rhs=float(r))
@@ -350,6 +378,9 @@ def replay_kernel(task, vals):
             old = Fraction(vals["F1"])
             exp = {"assign": r, "increase": old + r, "decrease": old - r}[task["op"]]
             root = _concrete_tree([task["op"], ["f", "?a"], to_ast(task["rhs"])], vals)
+            if again:
+                set_expression_value(root, _concrete_fluents(vals, earlier=True))
+                evaluate_expression(root)
             fl = _concrete_fluents(vals)
             set_expression_value(root, fl)
             got = evaluate_expression(root).value
@@ -431,7 +462,9 @@ def tasks_for(tier, seed):
     for d in range(0, 7):
         for sh in ["C1", ["+", "F1", "C1"], ["*", ["-", "C1", "F2"], "C2"], ["/", "C1", "C2"]]:
             tasks.append({"kind": "print", "digits": d, "shape": sh})
-    return tasks
+    # (e) the same tree object evaluated a second time, against another valuation
+    second = [dict(t, again=True) for i, t in enumerate(tasks) if t["kind"] in ("calc", "cmp", "assign") and i % 3 == 0]
+    return tasks + second
 
 
 def run_config(tier):
